@@ -77,6 +77,8 @@ def parseRtpHeader (b : Bytes) : GoM RtpHeader :=
           seq := rd16 s0 s1, timestamp := rd32 t0 t1 t2 t3, ssrc := rd32 c0 c1 c2 c3, csrc := csrc }
       let fin (h : RtpHeader) (off : Nat) : GoM RtpHeader :=
         if off ≥ b.length then .error .err else
+        -- a padding count that leaves no payload is a short buffer (the guard that keeps `Body()` in range)
+        if pad = 1 ∧ off + (b.getLastD 0).toNat ≥ b.length then .error .err else
         .ok { h with payloadOffset := off,
                      paddingLength := if pad = 1 then (b.getLastD 0).toNat else 0 }
       if ext ≠ 0 then
